@@ -1183,3 +1183,109 @@ func (a *Analysis) RegexPreludeCommentFailures() (out []PreludeCommentFailure, p
 	}
 	return out, preludes
 }
+
+// ---------- the final line break is insignificant ----------
+
+// FinalNewlineDivergence: a configuration in which the end of the input is accepted but a line break followed by the
+// end of the input is refused, or the other way round.
+type FinalNewlineDivergence struct {
+	State, Stack, Open string
+	Direct, AfterLF    string
+	Trace              string
+}
+
+// eofVerdict follows the end-of-input byte from a set of configurations (re-feeds after pops and rewinds included) and
+// says whether it can be consumed without an error ("accept"), only with an error ("error"), or both.
+func (ex *explorer) eofVerdict(set []Config, id int) string {
+	acc, rej := false, false
+	front := set
+	for round := 0; round < 6 && len(front) > 0; round++ {
+		var next []Config
+		for _, x := range front {
+			row := ex.m.Trans[x.St]
+			for _, o := range row[0] {
+				if o.Term == TErr && guardsHold(o.Guards, x.Prev) {
+					rej = true
+				}
+			}
+			for _, s := range ex.apply(x, id, x.St, 0, 0, 0) {
+				if s.w >= 1 {
+					acc = true
+					continue
+				}
+				n := s.c
+				n.Replay = ""
+				next = append(next, n)
+			}
+		}
+		front = next
+	}
+	switch {
+	case acc && rej:
+		return "accept or error"
+	case acc:
+		return "accept"
+	case rej:
+		return "error"
+	}
+	return "stuck"
+}
+
+// FinalNewlineDivergences compares, for every explored configuration that reads fresh input and has no lexeme open,
+// the end of the input with LF followed by the end of the input.
+func (a *Analysis) FinalNewlineDivergences() (out []FinalNewlineDivergence, compared int) {
+	ex := a.ex
+	saveFinds, saveNul := ex.finds, ex.nulOrd
+	ex.finds, ex.nulOrd = map[string]Finding{}, true
+	defer func() { ex.finds, ex.nulOrd = saveFinds, saveNul }()
+	seenKey := map[string]bool{}
+	for id, c := range ex.order {
+		if len(c.Replay) > 0 {
+			continue
+		}
+		key := fmt.Sprintf("%s|%s|%s", c.St, c.Stack, c.Open)
+		if seenKey[key] {
+			continue
+		}
+		seenKey[key] = true
+		var afterLF []Config
+		lfErr := false
+		for _, o := range ex.m.Trans[c.St]['\n'] {
+			if o.Term == TErr && guardsHold(o.Guards, c.Prev) {
+				lfErr = true
+			}
+		}
+		for _, s := range ex.apply(c, id, c.St, '\n', 0, 0) {
+			n := s.c
+			afterLF = append(afterLF, n)
+		}
+		if len(afterLF) == 0 || lfErr {
+			continue // a line break is not accepted here at all (or not always): nothing to compare
+		}
+		// follow replays after the LF
+		for guard := 0; guard < 4; guard++ {
+			var nx []Config
+			moved := false
+			for _, mc := range afterLF {
+				if len(mc.Replay) == 0 {
+					nx = append(nx, mc)
+					continue
+				}
+				moved = true
+				for _, s := range ex.apply(mc, id, mc.St, int(mc.Replay[0]), 0, 0) {
+					nx = append(nx, s.c)
+				}
+			}
+			afterLF = nx
+			if !moved {
+				break
+			}
+		}
+		compared++
+		d, l := ex.eofVerdict([]Config{c}, id), ex.eofVerdict(afterLF, id)
+		if d != l {
+			out = append(out, FinalNewlineDivergence{State: c.St, Stack: c.Stack, Open: c.Open, Direct: d, AfterLF: l, Trace: ex.trace(id)})
+		}
+	}
+	return out, compared
+}
